@@ -61,6 +61,7 @@ structure ASrc where
   synthSeen : Bool := false              -- its before_sleep produced a synthetic event in the current dispatch
   bheSeen : Nat := 0
   lifeDue : Bool := false                -- lifecycle hooks expected in the current dispatch
+  lastRet : Option Ret := none           -- what the user's callback returned last (in the current event processing)
   deriving Repr
 
 structure Viol where
@@ -252,7 +253,9 @@ def onExec (t : T) (o : COp) : T :=
 def onOpRes (t : T) (o : COp) (r : OpRes) : T :=
   let t := match r, isTokenOp o with
     | .err (.io _), some k | .err .other, some k =>
-      { (t.modSrc k fun a => { a with unknown := true }) with regFailed := true, anyFailure := true }
+      -- a composite source may be left half (un)registered by a failing call: its state is not judged any more;
+      -- a single-registration source is simply left as it was
+      { (t.modSrc k fun a => { a with unknown := a.unknown || a.kind == .custom }) with regFailed := true, anyFailure := true }
     | .err (.io _), none => { t with regFailed := true, anyFailure := true }
     | _, _ => t
   match o, r with
@@ -354,6 +357,7 @@ def onObs (t : T) (x : Obs) : T :=
     t.modSrc k fun a => { a with status := .absent, tok := none }
   | .ins _ .nosource => t
   | .pe k =>
+    let t := t.modSrc k fun a => { a with lastRet := none }
     let t := t.flagIf t.idlePhase .C13 s!"source {k} processed events after an idle callback of the same dispatch"
     -- C14: every due lifecycle source had its hooks before any event processing
     let t := t.srcs.foldl (fun (t : T) ((j, a) : Nat × ASrc) =>
@@ -361,7 +365,20 @@ def onObs (t : T) (x : Obs) : T :=
         t.flag .C14 s!"lifecycle source {j}: before_sleep x{a.bsSeen}, before_handle_events x{a.bheSeen} before event processing"
       else t) t
     { t with running := some k, deferred := none, sawPe := true, hooksDone := true }
-  | .peret k r => t.applyPost k r
+  | .peret k r =>
+    -- For a timer the user does not return a PostAction but a TimeoutAction: re-arming (ToInstant / ToDuration) means
+    -- "go on" — a request deferred in the same callback (disable / update on itself) must then win —, everything else
+    -- means the timer is dropped.  What `Timer::process_events` hands to the loop internally is not trusted for that.
+    let r' : Option PA := match t.src k, r with
+      | some a, some _ =>
+        if a.kind == .timer then
+          match a.lastRet with
+          | some (.toInstant _) => some .Continue
+          | some _ => some .Remove
+          | none => r                       -- no callback ran (stale or foreign event)
+        else r
+      | _, _ => r
+    (t.applyPost k r').modSrc k fun a => { a with lastRet := none }
   | .cb k p =>
     match t.src k with
     | none => t.flag .C01 s!"callback of unknown source {k}"
@@ -417,6 +434,7 @@ def onObs (t : T) (x : Obs) : T :=
         let t := t.flagIf spurious .C01 s!"composite source {k} called back for sub-source {j} whose fd had nothing to read since the wait began"
         if spurious then t.disturbed k s!"composite source {k} called back for sub-source {j} without a cause" else t
   | .cbret k r =>
+    let t := t.modSrc k fun a => { a with lastRet := some r }
     match t.src k, r with
     | some a, .toInstant d => if a.kind == .timer then t.modSrc k fun a => { a with deadline := some d, armed := true, armedInDisp := true } else t
     | some a, .overflow => if a.kind == .timer then t.modSrc k fun a => { a with deadline := none } else t
@@ -479,7 +497,10 @@ def onObs (t : T) (x : Obs) : T :=
             (t.flag .C02 s!"source {j} had a pending cause when the dispatch began and was not called back").disturbed j
               s!"source {j} had a pending cause when the dispatch began and was not called back"
           else t) t
-      | some _ => { t with anyFailure := true }
+      | some _ =>
+        -- C13: idles run after the events of a dispatch that returns Ok — never in one that fails
+        let t := t.flagIf t.idlePhase .C13 "idle callbacks ran in a dispatch that returned an error"
+        { t with anyFailure := true }
     { t with inDispatch := false, idleDue := none, idlePhase := false, running := none }
   | .st s =>
     -- C06: a removed source that nobody else holds is released by the end of the operation / dispatch
